@@ -158,9 +158,9 @@ pub fn nesting_inputs() -> Vec<String> {
 }
 
 /// operands of the arithmetic sweep: one column per SQL type of table m, and literals of every kind
-pub const ARITH_OPERANDS: [&str; 15] = ["i", "b", "u", "q", "f", "d", "s", "o", "0", "1", "- 1", "0.0", "2.5", "NULL", "'a'"];
+pub const ARITH_OPERANDS: [&str; 17] = ["i", "b", "u", "q", "f", "d", "s", "o", "0", "1", "- 1", "0.0", "2.5", "NULL", "'a'", "2147483647", "9223372036854775807"];
 pub const ARITH_OPS: [&str; 8] = ["+", "-", "*", "/", "%", "=", "<", ">="];
-pub const ARITH_ROWS: u64 = 4;
+pub const ARITH_ROWS: u64 = 6;
 
 /// `SELECT id, a op b FROM m WHERE id = r` and `SELECT id FROM m WHERE id = r AND (a op b) ...` for every
 /// ordered operand pair, operator and row of m (row 0 holds a zero in every numeric column)
@@ -179,6 +179,9 @@ pub fn arith_inputs() -> Vec<String> {
                 }
             }
             v.push(format!("SELECT id , - {a} FROM m WHERE id = {r}"));
+            v.push(format!("SELECT id , ABS ( {a} ) FROM m WHERE id = {r}"));
+            v.push(format!("SELECT id , ABS ( - {a} - 1 ) FROM m WHERE id = {r}"));
+            v.push(format!("SELECT SUM ( {a} ) , AVG ( {a} ) FROM m"));
         }
     }
     v
@@ -298,8 +301,11 @@ fn schema_setup(db: &mut Db, variant: u64) -> Result<(), String> {
     run("CREATE TABLE m (id INT, i INT, b BIGINT, u UINT, q BIGUINT, f FLOAT, d DOUBLE, s TEXT, o BOOLEAN)")?;
     run("INSERT INTO m VALUES (0, 0, 0, 0, 0, 0.0, 0.0, '', FALSE)")?;
     run("INSERT INTO m VALUES (1, 1, 1, 1, 1, 1.5, 1.5, 'a', TRUE)")?;
-    run("INSERT INTO m VALUES (2, -3, -3, 7, 7, -2.25, -2.25, 'b', TRUE)")?;
+    run("INSERT INTO m VALUES (2, -3, -3, 7, 9, -2.25, -2.25, 'b', TRUE)")?;
     run("INSERT INTO m VALUES (3, NULL, NULL, NULL, NULL, NULL, NULL, NULL, NULL)")?;
+    // the largest and the smallest value of every numeric type
+    run("INSERT INTO m VALUES (4, 2147483647, 9223372036854775807, 4294967295, 18446744073709551615, 300000000000000000000000000000000000000.0, 100000000000000000000000000000000000000000000000000000000000000000000000000000000000000000000000000000000000000000000000000000000000000000000000000000000000000000000000000000000000000000000000000000000000000000000000000000000000000000000000000000000000000000000000000000000000000000000000000000000000.0, 'zz', TRUE)")?;
+    run("INSERT INTO m VALUES (5, -2147483647 - 1, -9223372036854775807, 0, 0, -300000000000000000000000000000000000000.0, -0.5, 'a', FALSE)")?;
     Ok(())
 }
 
